@@ -38,7 +38,7 @@ def errName : XErr → String
   | .bufferFull => "buffer-full"
   | .ahtRange => "aht-range"
   | .notFound => "not-found"
-  | .panic => "panic"
+  | .panic => "panic"   -- only behind the parser (`precommit`); `parseExported_never_panics`
 
 def fmtErr (e : XErr) : String := if e == .panic then "panic" else "err:" ++ errName e
 
